@@ -40,6 +40,7 @@ class State:
         self.heap: dict[str, z3.ArrayRef] = {}
         self.heap_types: dict[str, sym.T] = {}
         self.alloc = z3.IntVal(0)
+        self.epoch = "H0"  # name prefix of heap arrays created lazily (changes when the whole heap is havocked)
         self.pc: list = []
         self.guards: list = []
         self.spec = False
@@ -57,6 +58,7 @@ class State:
         s.heap = dict(self.heap)
         s.heap_types = self.heap_types  # shared: field types are global facts
         s.alloc = self.alloc
+        s.epoch = self.epoch
         s.pc = list(self.pc)
         s.guards = list(self.guards)
         s.spec = self.spec
@@ -93,7 +95,7 @@ class State:
             if isinstance(t, TDict):
                 raise EngineError("dict-typed heap fields are handled by load/store")
             self.heap[key] = z3.Const(
-                f"H0.{key}", z3.ArraySort(z3.IntSort(), sort_of(t))
+                f"{self.epoch}.{key}", z3.ArraySort(z3.IntSort(), sort_of(t))
             )
             self.heap_types[key] = t
         return self.heap[key]
@@ -121,7 +123,7 @@ class State:
 
     def _arr(self, key, elem_sort):
         if key not in self.heap:
-            self.heap[key] = z3.Const(f"H0.{key}", z3.ArraySort(z3.IntSort(), elem_sort))
+            self.heap[key] = z3.Const(f"{self.epoch}.{key}", z3.ArraySort(z3.IntSort(), elem_sort))
         return self.heap[key]
 
     def havoc_loc(self, ref, key: str, t: sym.T):
@@ -148,6 +150,14 @@ class State:
         self.heap[key] = z3.Const(
             fresh_name(f"HV.{key}"), z3.ArraySort(z3.IntSort(), sort_of(t))
         )
+
+    def havoc_all(self):
+        """Forget the whole heap (a callee whose frame is `*`): every field array seen so far is replaced, and fields
+        first touched later get arrays of a new epoch (so they cannot coincide with their pre-call values)."""
+        for key, arr in list(self.heap.items()):
+            self.heap[key] = z3.Const(fresh_name(f"HV.{key}"), arr.sort())
+        self.epoch = fresh_name("HE")
+        self.havoc_alloc()
 
     def new_ref(self, cls: str) -> SV:
         r = z3.Int(fresh_name(f"new.{cls}"))
